@@ -65,7 +65,7 @@ func vpC01_O5() {
 	delta := vpBig("delta")
 	x := vpBig("x")
 	j := vpChoose("j", k+1) // index the tampering targets
-	switch vpChoose("tamper", 9) {
+	switch vpChoose("tamper", 10) {
 	case 0:
 		vpAssume(delta.Sign() != 0)
 		proof.C = vpAddTo(proof.C, delta)
@@ -102,6 +102,12 @@ func vpC01_O5() {
 		vpAssume(x.Sign() >= 0)
 		proof.ADisclosed[j] = x
 		proof.AResponses[j] = new(big.Int).Sub(proof.AResponses[j], new(big.Int).Mul(c, vpEff(x, pk)))
+	case 9: // a disclosed value shifted by a multiple of the (secret) group order, upwards or downwards
+		vpAssume(isDisc[j])
+		kk := vpIntRange("ordshift", -3, 3)
+		vpAssume(kk != 0)
+		shift := new(big.Int).Mul(big.NewInt(int64(kk)), sk.Order)
+		proof.ADisclosed[j] = vpAddTo(proof.ADisclosed[j], shift)
 	case 8: // hide a disclosed attribute behind an arbitrary response
 		vpAssume(isDisc[j])
 		delete(proof.ADisclosed, j)
